@@ -35,11 +35,14 @@ class Rewriter(ast.NodeTransformer):
             isinstance(f, ast.Attribute)
             and f.attr == "join"
             and isinstance(f.value, ast.Constant)
-            and isinstance(f.value.value, str)
+            and isinstance(f.value.value, (str, bytes))
             and len(node.args) == 1
             and not node.keywords
         ):
             return ast.Call(ast.Name("_sx_join", ast.Load()), [f.value, node.args[0]], [])
+        elif isinstance(f, ast.Attribute) and f.attr == "get" and 1 <= len(node.args) <= 2 and not node.keywords:
+            # mapping.get(key[, default]) with a possibly symbolic key
+            return ast.Call(ast.Name("_sx_get", ast.Load()), [f.value] + node.args, [])
         return node
 
     def visit_Subscript(self, node):
